@@ -79,7 +79,8 @@ def write_replay(prop, viol, rec, world, shrunk_from=None, calls=0):
         "property": prop, "clause": clause, "message": viol[2], "failing_op": viol[3],
         "digest": world.digest(),
         "record": rec,
-        "schedule_choices": world.director.choices_rec,
+        "schedule_choices_taken": world.director.choices_rec,
+        "context_switches": world.sched.switches,
         "minimised": {"from_ops": shrunk_from, "to_ops": len(rec["ops"]), "faults": len(rec.get("faults") or []),
                       "crash": bool(rec.get("crash")), "shrink_executions": calls},
         "trace_tail": trace[-120:],
@@ -123,7 +124,10 @@ def shrink_and_report(prop, v, profile):
     n0 = len(rec["ops"])
     if ev(rec) != clause:
         return None, "the violation (%s, seed %s) did not reproduce from its record" % (clause, v["seed"])
-    sh = Shrinker(rec, clause, ev, budget=int(os.environ.get("VERIF_SHRINK_BUDGET", "400")))
+    def choices(r):
+        c, w, viol = evaluate_record(r)
+        return w.director.choices_rec if c == clause else None
+    sh = Shrinker(rec, clause, ev, budget=int(os.environ.get("VERIF_SHRINK_BUDGET", "400")), choices_of=choices)
     small = sh.run()
     c, w, viol = evaluate_record(small)
     if c != clause:
